@@ -776,6 +776,10 @@ func Main(args []string) int {
 		return workerMain(args[1:])
 	case "replay":
 		return replayMain(args[1:])
+	case "dethash":
+		return dethashMain(args[1:])
+	case "selftest":
+		return selftestMain(args[1:])
 	}
 	fmt.Fprintf(os.Stderr, "unknown command %q\n", args[0])
 	return 2
